@@ -53,6 +53,14 @@ func (tm *Terms) walkContexts(roots []*ssa.Function, visit func(fr *Frame, in ss
 						if f, ok := mc.Fn.(*ssa.Function); ok && !fr.inChain(f) {
 							rec(tm.EnterClosure(fr, mc, ci))
 						}
+						continue
+					}
+					// a callback this function was itself handed (a helper that walks a collection with its caller's
+					// callback): the closure its caller made, in the caller's context
+					if _, isParam := a.(*ssa.Parameter); isParam && isFuncType(a.Type()) {
+						if f, mc, at := tm.resolveFuncValue(fr, a); f != nil && mc != nil && at != nil && !fr.inChain(f) {
+							rec(tm.EnterClosure(at, mc, ci))
+						}
 					}
 				}
 			}
@@ -100,6 +108,14 @@ func (tm *Terms) walkFrom(start *Frame, visit func(fr *Frame, in ssa.Instruction
 					if mc, ok := a.(*ssa.MakeClosure); ok {
 						if f, ok := mc.Fn.(*ssa.Function); ok && !fr.inChain(f) {
 							rec(tm.EnterClosure(fr, mc, ci))
+						}
+						continue
+					}
+					// a callback this function was itself handed (a helper that walks a collection with its caller's
+					// callback): the closure its caller made, in the caller's context
+					if _, isParam := a.(*ssa.Parameter); isParam && isFuncType(a.Type()) {
+						if f, mc, at := tm.resolveFuncValue(fr, a); f != nil && mc != nil && at != nil && !fr.inChain(f) {
+							rec(tm.EnterClosure(at, mc, ci))
 						}
 					}
 				}
